@@ -106,6 +106,10 @@ impl KVec4 {
         KcSpec { name: "Vec4::from((Vec3::from((v.xy(), e0)), e1))", extras: 2, result: &[0, 1, -1, -2] },
         KcSpec { name: "Vec4::from(Quaternion::from(v))", extras: 0, result: &[0, 1, 2, 3] },
         KcSpec { name: "Vec4::from((Vec3::from(Quaternion::from(v)), e))", extras: 1, result: &[0, 1, 2, -1] },
+        KcSpec { name: "Quaternion::from_vec4(v).into_vec4()", extras: 0, result: &[0, 1, 2, 3] },
+        KcSpec { name: "Vec4::from((Quaternion::from_vec4(v).into_vec3(), e))", extras: 1, result: &[0, 1, 2, -1] },
+        KcSpec { name: "fields -> Quaternion::from_xyzw(x, y, z, w).into_scalar_and_vec3() -> Vec4::from((v3, w))", extras: 0, result: &[0, 1, 2, 3] },
+        KcSpec { name: "fields -> Quaternion::from_scalar_and_vec3((w, Vec3::new(x, y, z))).into_vec4()", extras: 0, result: &[0, 1, 2, 3] },
         KcSpec { name: "Vec4::interleave_0011(v, w)", extras: 4, result: &[0, -1, 1, -2] },
         KcSpec { name: "Vec4::interleave_2233(v, w)", extras: 4, result: &[2, -3, 3, -4] },
         KcSpec { name: "Vec4::shuffle_lo_hi_0101(v, w)", extras: 4, result: &[0, 1, -1, -2] },
@@ -126,12 +130,23 @@ impl KVec4 {
             9 => Vec4::from((Vec3::from((v.xy(), e.next().unwrap())), e.next().unwrap())),
             10 => Vec4::from(Quaternion::from(v)),
             11 => Vec4::from((Vec3::from(Quaternion::from(v)), e.next().unwrap())),
+            12 => Quaternion::from_vec4(v).into_vec4(),
+            13 => Vec4::from((Quaternion::from_vec4(v).into_vec3(), e.next().unwrap())),
+            14 => {
+                let Vec4 { x, y, z, w } = v;
+                let (w, v3) = Quaternion::from_xyzw(x, y, z, w).into_scalar_and_vec3();
+                Vec4::from((v3, w))
+            }
+            15 => {
+                let Vec4 { x, y, z, w } = v;
+                Quaternion::from_scalar_and_vec3((w, Vec3::new(x, y, z))).into_vec4()
+            }
             k => {
                 let w = Vec4::new(e.next().unwrap(), e.next().unwrap(), e.next().unwrap(), e.next().unwrap());
                 match k {
-                    12 => Vec4::interleave_0011(v, w),
-                    13 => Vec4::interleave_2233(v, w),
-                    14 => Vec4::shuffle_lo_hi_0101(v, w),
+                    16 => Vec4::interleave_0011(v, w),
+                    17 => Vec4::interleave_2233(v, w),
+                    18 => Vec4::shuffle_lo_hi_0101(v, w),
                     _ => Vec4::shuffle_hi_lo_2323(v, w),
                 }
             }
